@@ -37,9 +37,21 @@ class Bench:
     def viol(self, what, inp, exp, obs):
         if len(self.res.violations) < 10:
             self.res.violations.append({'input': {'what': what, **inp}, 'expected': str(exp)[:400], 'observed': str(obs)[:400], 'how_to_run': 'see input; ./check <id> --replay <this file> re-runs the recorded scripts'})
+    def rerun(self, limit=1500):
+        """history independence: the same list, run again after everything else ran in this process, gives the same verdict"""
+        step = max(1, len(self.records) // limit)
+        n = 0
+        for c, ca, sc, o in self.records[::step]:
+            o2 = vmrun.auth_impl(c, ca, sc); n += 1
+            if o2.split(' ')[0] != o.split(' ')[0]:
+                self.viol('the verdict of the same script list changed after other lists ran in the same process (state kept between runs)',
+                          {'scripts': [s.hex() for s in sc], 'cache': vmrun.cache_str(ca, False), 'limits': c.line()}, o.split(' ')[0] + ' (first run)', o2.split(' ')[0] + ' (run again later)')
+        self.res.stats['lists_run_again_for_history_independence'] = n
+
     def finish(self):
         """model vs implementation: verdicts (and final state) of every recorded list, and builder bytes"""
         ctx, res = self.ctx, self.res
+        self.rerun()
         if not ctx.driver.available:
             res.disagreements.append({'driver': 'not built'}); return
         try:
